@@ -56,6 +56,7 @@ func c18Menu(thorough bool) []enga.ABlock {
 		ev(enga.Event{Kind: "req:grant", N: 1000}),
 		ev(enga.Event{Kind: "req:create-tk2", N: 3}), // a candidate whose power comes from the second token only
 		ev(enga.Event{Kind: "req:weight-tk2", N: 0}), // ... and loses it when that token's weight drops to zero
+		ev(enga.Event{Kind: "req:threshold", N: 0}),  // the last non-zero threshold is lowered to zero: the threshold list is empty, not absent
 	}
 	if thorough {
 		m = append(m,
